@@ -5,7 +5,7 @@
    as_totals_body, gen_add_mix, run_convert are re-proved about what the code says now. *)
 From Coq Require Import QArith List String ZArith Permutation.
 Require Import IPV.C15.Ir IPV.C15.Units IPV.C15.Convert IPV.C15.ExecLemmas IPV.C15.ConvertBody IPV.C15.UnitsProofs
-               IPV.C15.Store IPV.C15.Mix IPV.C15.MixGen IPV.C15.Checker IPV.Gen.Gen_C15_engine.
+               IPV.C15.ConvertSamples IPV.C15.Store IPV.C15.Mix IPV.C15.MixGen IPV.C15.MixGenSamples IPV.C15.Checker IPV.Gen.Gen_C15_engine.
 Import ListNotations.
 Open Scope string_scope.
 Open Scope Q_scope.
@@ -55,7 +55,7 @@ Proof. simpl. split; [repeat split; eexists; reflexivity|]. split; [reflexivity|
    concrete solutions: closed computation on the generated code *)
 Theorem gen_convert_units_agrees_on_samples :
   forallb (fun s => gen_matches_model (fst s) (snd s)) sample_lines = true.
-Proof. exact UnitsProofs.gen_convert_units_agrees_on_samples. Qed.
+Proof. exact ConvertSamples.gen_convert_units_agrees_on_samples. Qed.
 Print Assumptions gen_convert_units_agrees_on_samples.
 
 (* ---------------- unit conversion and water scaling: the clean model ---------------- *)
@@ -128,7 +128,7 @@ Proof. exact MixGen.add_solution_totals_step. Qed.
 Print Assumptions add_solution_totals_step.
 
 Theorem gen_add_mix_agrees_on_samples : forallb (fun ds => agrees ds ["Ca"; "Cl"; "Na"]) samples = true.
-Proof. exact MixGen.gen_add_mix_agrees_on_samples. Qed.
+Proof. exact MixGenSamples.gen_add_mix_agrees_on_samples. Qed.
 Print Assumptions gen_add_mix_agrees_on_samples.
 
 (* ---------------- mixing: the clean model (all sizes) ---------------- *)
